@@ -5,6 +5,7 @@ package objects
 
 import (
 	"bytes"
+	"fmt"
 	"sort"
 
 	"github.com/klauspost/compress/s2"
@@ -128,10 +129,20 @@ func GetBlock(s Store, buf, sum []byte) (blk [][]string, dst []byte, err error) 
 	return
 }
 
+// maxBlockIndexLen is the size of the index of a full block: count byte, 255
+// offsets and 255 entries of two 16-byte sums
+const maxBlockIndexLen = 1 + BlockSize + BlockSize*32
+
 func GetBlockIndex(s Store, buf, sum []byte) (idx *BlockIndex, dst []byte, err error) {
 	b, err := s.Get(blockIndexKey(sum))
 	if err != nil {
 		return
+	}
+	// s2.Decode allocates the length announced in the frame header
+	if n, err := s2.DecodedLen(b); err != nil {
+		return nil, nil, err
+	} else if n > maxBlockIndexLen {
+		return nil, nil, fmt.Errorf("block index %x announces %d bytes, more than a block index can hold", sum, n)
 	}
 	dst, err = s2.Decode(buf, b)
 	if err != nil {
